@@ -32,7 +32,7 @@ def queueOf (dump : String) : List PLine :=
   pis.filterMap fun (n, a, port, goal, retries, maxr, exp) =>
     (pqs.lookup n).map fun r => ⟨a, port, goal, retries, maxr, exp, r⟩
 
-def planted (initS : String) : List Server × Int × Nat :=
+def planted (ep : Int) (initS : String) : List Server × Int × Nat :=
   (initS.splitOn ",").foldl (fun (acc : List Server × Int × Nat) it =>
     if it.startsWith "adv" then (acc.1, acc.2.1 + ((it.drop 3).toInt?.getD 0), acc.2.2)
     else if it.startsWith "call|add!" then
@@ -55,15 +55,19 @@ def planted (initS : String) : List Server × Int × Nat :=
         | none => acc
       | _ => acc
     else if it.startsWith "call|penq!" then (acc.1, acc.2.1, acc.2.2 + 1)
-    else acc) ([], epoch, 0)
+    else acc) ([], ep, 0)
+
+/-- `cycle0`: the same with the clock started on 1970-01-02: every nanosecond is then an exact float64 score, so intervals,
+countdowns and refresh times need not be multiples of 256 ns (at 2024 scores the stored precision) -/
+def epoch0 : Int := 86400000000000
 
 def handle (args out : List String) : Verdict :=
-  match args with
-  | ["cycle", rr, vr, initS, clientS] =>
+  match (match args with | "cycle0" :: rest => (epoch0, "cycle" :: rest) | a => (epoch, a)) with
+  | (ep, ["cycle", rr, vr, initS, clientS]) =>
     match rr.toInt?, vr.toInt?, kv out "eff", kv out "calls", kv out "res", kv out "dump", parseSpec clientS with
     | some rr, some vr, some ieff, some icalls, some ires, some idump, some spec =>
       let cfg : UCfg := { refreshRetries := rr, revivalRetries := vr }
-      let (svrs, now, preQueued) := planted initS
+      let (svrs, now, preQueued) := planted ep initS
       let q := queueOf idump
       -- recover the draws from the implementation's port probes
       let draws : Nat → Int := fun k =>
@@ -71,7 +75,7 @@ def handle (args out : List String) : Verdict :=
         | some p => p.ready - now
         -- a selected server without a probe was dropped (ready ≥ expiry): any draw ≥ interval reproduces that
         | none => match spec with | .revive iv _ _ => iv | _ => 0
-      match runInit cfg { clock := epoch } (if initS = "-" then [] else initS.splitOn ",") with
+      match runInit cfg { clock := ep } (if initS = "-" then [] else initS.splitOn ",") with
       | none => .bad "C15 init"
       | some s0 =>
         let start := startClients s0 [spec.prog cfg draws]
